@@ -402,6 +402,10 @@ def install(eng):
 
     eng.models[id(_b.all)] = Model("all", _all_any(True))
     eng.models[id(_b.any)] = Model("any", _all_any(False))
+    def list_len(eng, st, args, kw):
+        yield st, SV(V.mk_int(z3.Length(z3.Select(st.lists, V.Val.a(args[0].t)))))
+
+    eng.method_models[(list, "__len__")] = Model("list.__len__", list_len)
     eng.method_models[(list, "append")] = Model("list.append", list_append)
     eng.method_models[(list, "pop")] = Model("list.pop", list_pop)
 
